@@ -318,6 +318,19 @@ def sample(lines, k=3):
     return out
 
 
+def _reap_provers(pd):
+    """Kill back-end provers that were started from the scratch proof directory `pd` and escaped the process group."""
+    import signal
+    for d in os.listdir("/proc"):
+        if not d.isdigit():
+            continue
+        try:
+            if os.readlink(f"/proc/{d}/cwd").startswith(pd):
+                os.kill(int(d), signal.SIGKILL)
+        except (OSError, ValueError):
+            pass
+
+
 def tlapm_prove(module, deps, pid, theorem, timeout=1500, threads=4):
     """Run the TLA+ proof system on spec/<module>.tla (which EXTENDS the checked modules `deps` themselves) in a scratch
     copy under the property's work directory.  A failed obligation is a defect of the specification library, not of
@@ -330,15 +343,29 @@ def tlapm_prove(module, deps, pid, theorem, timeout=1500, threads=4):
     for f in list(deps) + [module]:
         shutil.copy(f"{ROOT}/spec/{f}.tla", pd)
     log = f"{wd}/tlapm_{module}.log"
+    # tlapm races several back ends per obligation and does not reap the losers (a diverging z3 survives tlapm and spins
+    # for hours): run it in its own session and kill the whole process group afterwards
+    import signal
+    proc = subprocess.Popen(["tlapm", "--threads", str(threads), f"{module}.tla"], cwd=pd, stdout=subprocess.PIPE,
+                            stderr=subprocess.STDOUT, text=True, start_new_session=True)
+    timed_out = False
     try:
-        p = subprocess.run(["tlapm", "--threads", str(threads), f"{module}.tla"], cwd=pd, stdout=subprocess.PIPE,
-                           stderr=subprocess.STDOUT, text=True, timeout=timeout)
+        out, _ = proc.communicate(timeout=timeout)
     except subprocess.TimeoutExpired:
+        timed_out = True
+        out = ""
+    finally:
+        try:
+            os.killpg(proc.pid, signal.SIGKILL)
+        except (ProcessLookupError, PermissionError):
+            pass
+        _reap_provers(pd)
+    if timed_out:
         tool_error(f"tlapm {module} timed out")
-    open(log, "w").write(p.stdout)
-    m = re.search(r"All (\d+) obligations proved", p.stdout)
-    if p.returncode != 0 or not m:
-        print(p.stdout[-1500:])
+    open(log, "w").write(out)
+    m = re.search(r"All (\d+) obligations proved", out)
+    if proc.returncode != 0 or not m:
+        print(out[-1500:])
         tool_error(f"tlapm did not prove {module} (log {log})")
     shutil.rmtree(pd, ignore_errors=True)
     return {"prover": "tlapm (TLAPS 1.6.0-pre; SMT / Zenon / Isabelle back ends)", "module": module,
